@@ -43,6 +43,8 @@ pub fn alphabet(name: &str) -> Vec<f64> {
         "tiny" => vec![1e-9, 2e-9, 3e-9, 7e-9, -7e-9, 1e-11],
         "large" => vec![1e20, 2e20, 3e20, 7e20, -7e20, 1e18],
         "q07" => vec![-1., 0., 0.5, 2., 7.],
+        // finite values near the overflow threshold (sums of two overflow, the values do not)
+        "q07huge" => vec![-1.7e308, -1.2e308, 0.5, 1e308, 1.5e308],
         "const1" => vec![2.5],
         "weights" => vec![0., 1e-6, 0.5, 1., 3., 1e6],
         _ => panic!("unknown alphabet {name}"),
